@@ -151,7 +151,8 @@ func VerifC15EventTimeBuffer() {
 		if zzverif.Choice(fmt.Sprintf("in.e%d.hastime", i), 2) == 1 {
 			in[i].EventTime, secs[i] = secTime(fmt.Sprintf("in.e%d.t", i), zzverif.Param("T"))
 		}
-		if in[i].Retraction {
+		if in[i].Retraction && zzverif.Param("RT") == 1 {
+			// RT=1: a retraction never carries an earlier event time than its addition
 			zzverif.Assume(secs[i] >= secs[origin[i]])
 		}
 	}
